@@ -15,6 +15,12 @@ Answers
   printed as `n<k>` (k-th allocated object met), `o<oid>` (an object of the input heap, i.e. shared
   with the original), `u<oid>` (dangling)
 * tree dump (identity-free): nested terms `<cls/m/v,v/k=v,k=v>`
+
+Operations: `clone <ct> <heap> <root> <k>`, `pickle <ct> <heap> <root> same|empty`,
+`create <ct> <cls> <items> <count>`, `createclone <ct> <cls> <items>` (one instance created in the
+empty heap, then cloned; graph dump of the clone relative to the heap after the creation, so the
+created objects print as `o<oid>`), `tb …`.  `None` (set by `ConstrainedFitness.__init__`) is the
+atom `Heap.noneAtom`.
 -/
 namespace DriverC16
 open Proto Heap
@@ -153,6 +159,17 @@ def handle : List String → String
       match (List.range k).foldl step (some ({ objs := fun _ => none, next := 0, memo := [] }, [])) with
       | some (st, roots) => graphDump st.objs 0 (st.next + 2) roots
       | none => "fail"
+    | none => "bad-op"
+  | ["createclone", cts, cs, items] =>
+    match (do let ct ← parseCt cts; let c ← cs.toNat?; let it ← parseList parseVal items
+              pure (ct, c, it)) with
+    | some (ct, c, it) =>
+      match create ct { objs := fun _ => none, next := 0, memo := [] } c it with
+      | none => "fail"
+      | some (st, x) =>
+        match clone ct (ct.length + 3) st.objs st.next (Val.ref x) with
+        | some (objs, next, v') => graphDump objs st.next (next + 2) [v']
+        | none => "fail"
     | none => "bad-op"
   | ["tb", args, kw, ndec, cargs, ckw] =>
     match (do let a ← parseList parseInt args; let k ← parseKw kw; let n ← ndec.toNat?
